@@ -193,6 +193,14 @@ def stepG (divPanics : Bool) (w : List String) : String :=
     match parsePoly (q := q) p, parseZ (q := q) b, i.toInt?, parseZ (q := q) v with
     | some (g, c), some b, some i, some v => showBool (check (Zq q) (P := Zq q) ⟨g, b, c⟩ i v)
     | _, _, _, _ => "bad-op"
+  | ["tors", p, b, i, v, _] =>
+    -- `check` against a commitment polynomial whose first commitment carries a small-order component `T`
+    -- (Ed25519, cofactor 8): a point is (discrete log in ⟨B⟩, torsion part); `Eval(i)` has torsion part
+    -- `T ≠ O`, `v • base` has torsion part `O`, so the comparison of the pairs is false whatever the
+    -- discrete-log parts are
+    match parsePoly (q := q) p, parseZ (q := q) b, i.toInt?, parseZ (q := q) v with
+    | some (g, c), some b, some i, some v => showBool (check (Zq q) (P := Zq q) ⟨g, b, c⟩ i v && false)
+    | _, _, _, _ => "bad-op"
   | ["recsecret", _, t, n, sh] =>
     match t.toNat?, n.toNat?, parseShares (q := q) sh with
     | some t, some n, some sh => showOut showZ (recoverSecret divPanics (toPri sh) t n)
